@@ -8,17 +8,18 @@ from vh_refsem import build, ref_serialize, RefInvalid
 
 def wire(types, desc, cfg):
     cls = load_class(desc["module"], desc["name"])
-    tree = gen_unit(types, desc["instrs"], desc["name"], cfg, False, "any")
+    tree = gen_unit(types, desc["instrs"], desc["name"], cfg, desc["entry"], "any")
     obj = build(types, cls, desc["instrs"], tree)
     w = EoWriter()
+    w.string_sanitization_mode = desc["entry"]
     cls.serialize(w, obj)
     got = w.to_bytearray()
     observe("wire", got)
-    exp = ref_serialize(types, desc["instrs"], tree, False)
+    exp = ref_serialize(types, desc["instrs"], tree, desc["entry"], desc["entry"])
     check(len(got) == len(exp), "serialized length equals the prescribed length")
     if len(got) == len(exp):
         check(list(got) == exp, "serialized bytes equal the prescribed wire image")
-    check(w.string_sanitization_mode == False, "sanitisation mode restored")
+    check(w.string_sanitization_mode == desc["entry"], "sanitisation mode restored")
     if desc["packet"] is not None:
         check(int(cls.family()) == desc["packet"][0], "packet reports its declared family")
         check(int(cls.action()) == desc["packet"][1], "packet reports its declared action")
